@@ -459,10 +459,13 @@ func (this *BlockDecompressor) Decompress() (int, uint64) {
 		jobsPerTask, _ := internal.ComputeJobsPerTask(make([]uint, nbFiles), this.jobs, uint(nbFiles))
 		sort.Sort(internal.NewFileCompare(files, true))
 
+		iNames := make([]string, nbFiles)
+		oNames := make([]string, nbFiles)
+
 		for i, f := range files {
-			iName := f.FullPath
-			oName := formattedOutName
-			tmpName := iName
+			iNames[i] = f.FullPath
+			oNames[i] = formattedOutName
+			tmpName := iNames[i]
 
 			if len(tmpName) >= 4 && strings.EqualFold(tmpName[len(tmpName)-4:], ".KNZ") {
 				tmpName = tmpName[0 : len(tmpName)-4]
@@ -470,11 +473,23 @@ func (this *BlockDecompressor) Decompress() (int, uint64) {
 				tmpName = tmpName + ".bak"
 			}
 
-			if len(oName) == 0 {
-				oName = tmpName
+			if len(oNames[i]) == 0 {
+				oNames[i] = tmpName
 			} else if inputIsDir == true && specialOutput == false {
-				oName = formattedOutName + relativeToInputDir(formattedInName, tmpName)
+				oNames[i] = formattedOutName + relativeToInputDir(formattedInName, tmpName)
 			}
+		}
+
+		if specialOutput == false {
+			if err := checkOutputNames(iNames, oNames); err != nil {
+				fmt.Println(err.Error())
+				return kanzi.ERR_OVERWRITE_FILE, 0
+			}
+		}
+
+		for i, f := range files {
+			iName := iNames[i]
+			oName := oNames[i]
 
 			taskCtx := make(map[string]any)
 
